@@ -8,8 +8,8 @@
 (* t = "enc": mn, ops   the printed text of the instance, tokenised          *)
 (*            msz       operand width of the instruction class in bits (0:   *)
 (*                      not fixed by the class)                              *)
-(*            place, sym, symfits, sym16   address of the instruction and    *)
-(*                      value of the label operand                           *)
+(*            place, sym16   address of the instruction (small integer) and  *)
+(*                      value of the label operand (16 limbs)                *)
 (*            out       [ok, exc, bytes] = what encode() (+ the instruction's*)
 (*                      own relocation) produced                             *)
 (* t = "rw":  bytes, uses / defs / clob = register names ppci declares       *)
